@@ -5,8 +5,8 @@ ENGINES = {
         model='coq/Model/EsClient.v (C14), coq/Model/Producer.v (C15)',
         rule='cases from harness/e7 Gen; focus C14: elasticsearch scenarios (selector 14: batch-size 1..5, max retries 1..3, index-workers 1..3, '
              'up to 24 ops = index requests / wrong-typed payloads / pauses of arrivals, per-document per-attempt scripts 2xx / retryable / mapping / '
-             'non-2xx-without-error, late responses in a few cases, whole-request errors only in the thorough tier, clean Shutdown or Shutdown '
-             'right after the last arrival), run against the real Elasticsearch node (Setup, ProcessAsync, Shutdown) over a scripted bulk-service '
+             'non-2xx-without-error, late responses in a few cases, whole-request errors only in the thorough tier, clean Shutdown, Shutdown '
+             'right after the last arrival, or the latter with all bulk requests held in flight until Shutdown has returned), run against the real Elasticsearch node (Setup, ProcessAsync, Shutdown) over a scripted bulk-service '
              'factory; focus C15: produce requests and error '
              'reports (selector 15: empty / binary / large payloads, topic override present or absent, configured topic present or '
              'absent, plain / wrapped / structured / pointer errors, marshalable and unmarshalable event payloads, both report '
@@ -21,7 +21,7 @@ ENGINES = {
               '23': 'non-2xx without error field at the last attempt', '24': 'partial batch sent by the idle timer', '25': 'full batch',
               '26': 'wrong-typed payload', '27': 'Shutdown with a pending batch (known finding F7)', '28': 'late 2xx response (after the client-side deadline)',
               '29': 'whole-request error (thorough tier only: 5 s back-off)', '30': 'several bulk requests with more than one worker',
-              '31': 'success after a retry'},
+              '31': 'success after a retry', '32': 'Shutdown while bulk requests are held in flight (known finding F7, in-flight half)'},
         trusted_base=['hand-written models Model/Producer.v (KafkaProducer.Process, ErrorProducer.Process, EventError.MarshalJSON, FBError) and '
                       'Model/EsClient.v tied to the code only by this correspondence run',
                       'encoding/json behaviour as modelled (struct tags, omitempty on an interface, rendering of *json.MarshalerError); '
@@ -36,7 +36,7 @@ ENGINES = {
 }
 
 PROPS = {
-    'C14': dict(engine='e7', n=dict(quick=480, thorough=6000), shards=12, components=[11, 12, 13], search_mult=3, search_s=60,
+    'C14': dict(engine='e7', n=dict(quick=480, thorough=6000), shards=12, components=[11, 12, 13, 14], search_mult=3, search_s=60,
                 manifest=dict(
                     level_text='Coq theorems (coq/Props/C14.v) over an executable model of ProcessAsync, the batcher, retryBulkIndex/doBulkIndex/'
                                'handleErrorResponses and the token pool: for every batch, configuration and per-document outcome script without '
@@ -53,10 +53,11 @@ PROPS = {
                                'answer (C14_answered_once) assumes none; both kinds are compared with the code in the thorough tier. (3) Interleavings: the scheduled '
                                'machine (arrivals, timer, Shutdown, acquire/respond/release) is proved to reach the multiset of answers and bulk requests of the '
                                'schedule-free semantics es_run on every complete schedule (C14_schedule_independent); that the Go runtime realises that machine is '
-                               'modelled, not verified. (4) Requests in flight at Shutdown are still completed '
-                               'by their goroutines in the harness process; only the pending-batch half of F7 is observed. PROVED for the model: C14_spec_model - on '
+                               'modelled, not verified. (4) Shutdown: both halves of F7 are observed - requests in the pending batch are never answered; requests held in flight by the scripted '
+                               'service have no answer when Shutdown returns (they are answered later only because the harness process lives on). '
+                               'PROVED for the model: C14_spec_model - on '
                                'every scenario of the quantifier the decision procedure fails, on the model\'s own observation, exactly clause 6/detail 1 once per '
-                               'request pending at Shutdown. Trusted: Coq kernel, extraction, harness incl. scripted bulk service and its decoding of request '
+                               'request pending at Shutdown and, in held-in-flight scenarios, clause 6/detail 2 once per request already sent. Trusted: Coq kernel, extraction, harness incl. scripted bulk service and its decoding of request '
                                'source lines, verif hook (type aliases + setter).',
                     technique='machine-checked proof in Coq over hand-written model + model/implementation correspondence check',
                               design_ref='DESIGN.md section 8, E7 (C14)')),
